@@ -2,10 +2,13 @@ package main
 
 import (
 	"encoding/hex"
+	"encoding/pem"
 	"fmt"
 	"strings"
+	"unicode/utf8"
 
 	"github.com/btcsuite/btcutil/base58"
+	"github.com/multiformats/go-multibase"
 
 	"github.com/hyperledger/aries-framework-go/component/models/did"
 
@@ -26,7 +29,20 @@ var relNames = []string{"authentication", "assertionMethod", "capabilityDelegati
 // absolute ids in base58 / multibase / JWK form, every verification relationship with referenced (relative and
 // absolute) and embedded (relative and absolute) methods, services with relative ids and custom properties.
 func randDID(r *hx.Rng) *J {
-	f := feat{big: r.Intn(25) == 0}
+	// at most one defect-prone feature per document: big numbers, a multi-entry endpoint, JWK members the jwk package drops
+	var f feat
+
+	switch r.Intn(16) {
+	case 0:
+		f.big = true
+	case 1, 2:
+		f.caseVar = true // stands for: multi-entry / decorated DIDComm V2 endpoint
+	case 3:
+		f.jwt = true // stands for: JWK with key_ops / custom members
+	}
+
+	allModelled := true
+	exoticDoc := r.Intn(3) == 0 // key encodings the Coq model does not describe: hex, PEM, multibase prefixes other than z
 	base := didBases[r.Intn(len(didBases))]
 	ctx := arr(str("https://www.w3.org/ns/did/v1"))
 
@@ -65,17 +81,11 @@ func randDID(r *hx.Rng) *J {
 
 		ctrl := []string{didID, didID, "did:ex:controller", ""}[r.Intn(4)]
 		o := obj(kv("id", str(id)), kv("controller", str(ctrl)))
+		km, modelled := randKeyMaterial(r, f.jwt, exoticDoc && r.Bool())
+		o.O = append(o.O, km...)
 
-		switch r.Intn(5) {
-		case 0:
-			o.O = append(o.O, kv("type", str("Ed25519VerificationKey2020")), kv("publicKeyMultibase", str("z"+b58keys[r.Intn(3)])))
-		case 1:
-			o.O = append(o.O, kv("type", str("JsonWebKey2020")), kv("publicKeyJwk", obj(kv("kty", str("OKP")), kv("crv", str("Ed25519")),
-				kv("x", str("O2onvM62pC1io6jQKm8Nc2UyFXcd4kOmOsBIoYtZ2ik")))))
-		case 2:
-			o.O = append(o.O, kv("type", str("X25519KeyAgreementKey2019")), kv("publicKeyBase58", str(b58keys[r.Intn(3)])))
-		default:
-			o.O = append(o.O, kv("type", str("Ed25519VerificationKey2018")), kv("publicKeyBase58", str(b58keys[r.Intn(3)])))
+		if !modelled {
+			allModelled = false
 		}
 
 		shuffle(r, o.O)
@@ -139,9 +149,9 @@ func randDID(r *hx.Rng) *J {
 		s := obj(kv("id", str([]string{didID + "#s", "#s", absBase + "#s"}[r.Intn(3)]+fmt.Sprint(i))),
 			kv("type", []*J{str("LinkedDomains"), arr(str("A"), str("B")), str("did-communication")}[r.Intn(3)]))
 
-		form := []int{0, 0, 1, 1, 2, 2, 2, 3}[r.Intn(8)]
-		if f.big && form == 3 {
-			form = 0 // one defect-prone feature per document
+		form := []int{0, 0, 1, 1, 2, 2, 2}[r.Intn(7)]
+		if f.caseVar && i == 0 {
+			form = 3
 		}
 
 		switch form {
@@ -223,7 +233,42 @@ func randDID(r *hx.Rng) *J {
 
 	shuffle(r, d.O)
 
+	_ = allModelled
+
 	return d
+}
+
+// keyEncodingsModelled: every verification method of the document gives its key as base58, multibase z or JWK
+// (hex, PEM and the other multibase prefixes are compared by the direct oracle only).
+func keyEncodingsModelled(d *J) bool {
+	ok := true
+
+	var walk func(j *J)
+
+	walk = func(j *J) {
+		switch j.K {
+		case jArr:
+			for _, x := range j.A {
+				walk(x)
+			}
+		case jObj:
+			if j.get("publicKeyHex") != nil || j.get("publicKeyPem") != nil {
+				ok = false
+			}
+
+			if v := j.get("publicKeyMultibase"); v != nil && !(v.K == jStr && strings.HasPrefix(v.S, "z")) {
+				ok = false
+			}
+		}
+	}
+
+	for _, k := range append([]string{"verificationMethod"}, relNames...) {
+		if v := d.get(k); v != nil {
+			walk(v)
+		}
+	}
+
+	return ok
 }
 
 func keyBytesOf(vm *J) string {
@@ -231,12 +276,39 @@ func keyBytesOf(vm *J) string {
 		return "raw:" + hex.EncodeToString(base58.Decode(v.S))
 	}
 
-	if v := vm.get("publicKeyMultibase"); v != nil && v.K == jStr && strings.HasPrefix(v.S, "z") {
-		return "raw:" + hex.EncodeToString(base58.Decode(v.S[1:]))
+	if v := vm.get("publicKeyMultibase"); v != nil && v.K == jStr && v.S != "" {
+		_, b, err := multibase.Decode(v.S)
+		if err != nil {
+			return "undecodable multibase: " + err.Error()
+		}
+
+		return "raw:" + hex.EncodeToString(b)
 	}
 
-	if v := vm.get("publicKeyJwk"); v != nil {
-		return "jwk:" + v.canon()
+	if v := vm.get("publicKeyHex"); v != nil && v.K == jStr && v.S != "" {
+		return "raw:" + strings.ToLower(v.S)
+	}
+
+	if v := vm.get("publicKeyPem"); v != nil && v.K == jStr && v.S != "" {
+		if blk, _ := pem.Decode([]byte(v.S)); blk != nil {
+			return "raw:" + hex.EncodeToString(blk.Bytes)
+		}
+
+		return "undecodable pem"
+	}
+
+	if v := vm.get("publicKeyJwk"); v != nil && v.K == jObj {
+		// the key itself: the members that carry key material
+		k := obj()
+
+		for _, m := range v.O {
+			switch m.K {
+			case "kty", "crv", "x", "y", "n", "e":
+				k.O = append(k.O, m)
+			}
+		}
+
+		return "jwk:" + k.canon()
 	}
 
 	return "none"
@@ -262,6 +334,26 @@ func diffVM(in, out *J, where string) []string {
 
 	if keyBytesOf(in) != keyBytesOf(out) {
 		d = append(d, where+".key")
+	}
+
+	if ij, oj := in.get("publicKeyJwk"), out.get("publicKeyJwk"); ij != nil && ij.K == jObj && oj != nil && oj.K == jObj {
+		for _, m := range ij.O {
+			if o := oj.get(m.K); o == nil {
+				if m.K == "key_ops" || !jwkRegistered[m.K] {
+					d = append(d, where+".jwk-dropped:"+m.K)
+				} else {
+					d = append(d, where+".jwk-lost:"+m.K)
+				}
+			} else if !jequal(m.V, o) {
+				d = append(d, where+".jwk-changed:"+m.K)
+			}
+		}
+
+		for _, m := range oj.O {
+			if ij.get(m.K) == nil {
+				d = append(d, where+".jwk-invented:"+m.K)
+			}
+		}
 	}
 
 	for _, m := range out.O {
@@ -338,7 +430,7 @@ func runDID(kind string, doc *J, note string) {
 		rec.Observed = map[string]string{"out": string(b)}
 		rec.Class = "did:" + shapeOf(doc) + fmt.Sprint(base == "", base == didID)
 
-		if doc.coqable() && out.coqable() {
+		if doc.coqable() && out.coqable() && keyEncodingsModelled(doc) {
 			rec.Coq = "CDID " + doc.Coq() + " " + out.Coq()
 		}
 
@@ -402,7 +494,23 @@ func runDID(kind string, doc *J, note string) {
 		}
 
 		if len(diffs) > 0 {
-			fail("did:member-not-preserved:"+diffs[0], strings.Join(diffs, ",")+" "+string(b))
+			onlyDropped := true
+
+			for _, x := range diffs {
+				if !strings.Contains(x, ".jwk-dropped:") {
+					onlyDropped = false
+				}
+			}
+
+			if onlyDropped {
+				fail("did:jwk-key_ops-or-custom-member-dropped", strings.Join(diffs, ","))
+			} else {
+				fail("did:member-not-preserved:"+diffs[0], strings.Join(diffs, ",")+" "+string(b))
+			}
+		}
+
+		if !utf8.Valid(b) {
+			fail("did:output-not-utf8", fmt.Sprintf("%q", b))
 		}
 
 		// services
